@@ -910,6 +910,7 @@ Definition cc_reference (p : policy) : ccdec :=
   | PNoStore | PPrivate | PBadDate _ => (false, None, false)
   | PMalformed => (false, None, false)
   | PPrivateMaxAge n | PNoStoreMaxAge n => (false, Some n, false)
+  | PRaw _ => (false, None, false)
   end.
 
 Example cc_reference_respects_headers cm cli gw uok :
